@@ -233,6 +233,13 @@ def check(run):
         "parity by long division in this file is trusted (validated by C02 against CRC24.tla)",
     ]
 
+    # end-to-end segment: the real jet1090 binary over loopback TCP, judged by Trace_Pipeline for the
+    # clauses of Pipeline.tla that restate this property through main.rs's wiring (see _e2e.py)
+    from . import _e2e
+    n_e2e = 40 if run.tier == "thorough" else 8
+    if n_e2e:
+        _e2e.segment(run, n_e2e)
+
 
 def replay(run, path):
     with open(path) as f:
